@@ -10,7 +10,7 @@ the calendar (Date then rightly raises ValueError); for an accepted text any oth
 model must equal the text, the concatenation of the store's tokens must equal the text, and every sub-model must print
 exactly the slice it spans (spans from token lengths), nested and ordered.
 """
-from symx.env import NoTracing, check, Fail, NATIVE, pick, R
+from symx.env import NoTracing, check, Fail, NATIVE, pick, R, known_finding
 from symx import parseenv, lexenv, docenv
 from symx.parseenv import build
 from autobean_refactor import models, parser as parser_lib
@@ -34,9 +34,12 @@ def check_parse(s, target, acc):
             return None      # a DATE lexeme without a meaning (month 13, year 0, ...)
         raise Fail('parse() raised on a text the grammar accepts: %r' % (e,))
     out = ''.join(t.raw_text for t in m.tokens)
-    check(out == s, 'printed model differs from the input', R(out), R(s))
     whole = ''.join(t.raw_text for t in m.token_store)
     check(whole == s, 'concatenation of the store differs from the input', R(whole), R(s))
+    if out != s and outer_trivia_only(m) and known_finding('C01-single-model-target-outer-trivia'):
+        pass    # recorded deviation: trivia outside the span of a single-model parse target is not printed with the model
+    else:
+        check(out == s, 'printed model differs from the input', R(out), R(s))
     # every sub-model prints the slice it spans; spans nested and ordered
     toks = list(m.token_store)
     with NoTracing():
@@ -76,6 +79,19 @@ def check_parse(s, target, acc):
 
     span(m, type(m).__name__)
     return m
+
+
+def outer_trivia_only(m):
+    """The returned model is not a File and every token of the store outside its span is trivia
+    (blanks, newlines, comments, zero-width marks)."""
+    if isinstance(m, M.File):
+        return False
+    with NoTracing():
+        toks = list(m.token_store)
+        idx = {id(t): i for i, t in enumerate(toks)}
+        a, b = idx[id(m.first_token)], idx[id(m.last_token)]
+        outside = toks[:a] + toks[b + 1:]
+        return bool(outside) and all((not t.raw_text) or isinstance(t, (M.Whitespace, M.Newline, M.BlockComment, M.InlineComment, M.Indent)) for t in outside)
 
 
 def make_hole(tname, target_name, pos, nh, restrict=None, twin=False):
@@ -132,7 +148,7 @@ def hole_positions(text):
     """Between-token positions: line starts, before/after indents, before EOL, end of text, plus after each blank."""
     out = {0, len(text)}
     for i, ch in enumerate(text):
-        if ch in '\n ':
+        if ch in '\n \r':
             out.add(i)
             out.add(i + 1)
     return sorted(out)
@@ -148,19 +164,19 @@ def _reg(name_fn, tiers, timeout, family, bounds, twin=False, cost=None):
 
 
 Q, T = ('quick', 'thorough'), ('thorough',)
-QUICK_HOLES = {'open': [0, 10, 25, 26], 'txn': [12, 13, 15, 23, 24], 'cmt': [0, 4, 31, 35], 'posting': [0, 2, 19, 24], 'crlf': [14, 15, 18], 'two': [10, 11, 12], 'icmt': [24, 26, 31]}
+QUICK_HOLES = {'open': [0, 10, 25], 'txn': [12, 13, 24], 'cmt': [0, 4], 'posting': [0, 19], 'crlf': [14, 15, 18], 'two': [10, 11, 12], 'icmt': [24, 26, 31]}
 for _t, _text in TEMPLATES.items():
     for _target in TARGETS[_t]:
         for _pos in hole_positions(_text):
             quick = _pos in QUICK_HOLES.get(_t, []) and _target == TARGETS[_t][0]
-            _reg(make_hole(_t, _target, _pos, 1), {'C01': Q if quick else T}, 900, 'hole1',
+            _reg(make_hole(_t, _target, _pos, 1), {'C01': Q if quick else T}, 900 if quick else 3000, 'hole1',
                  'template %r parsed as %s with 1 symbolic code point (full Unicode) inserted at offset %d; auto_claim_comments symbolic' % (_text, _target, _pos), cost=200)
         for _pos in hole_positions(_text)[::3]:
             _reg(make_hole(_t, _target, _pos, 2, restrict=' \t\r\n;'), {'C01': T}, 1800, 'hole2',
                  'template %r parsed as %s with 2 code points at offset %d: first free (full Unicode), second from {SP,TAB,CR,LF,;}' % (_text, _target, _pos))
 for _n in (0, 1, 2):
     for _target in ('File', 'Posting', 'MetaItem', 'NumberExpr', 'CostSpec', 'Open'):
-        _reg(make_whole(_n, _target), {'C01': Q if (_n <= 1 or _target == 'File') else T}, 900, 'whole', 'every text of %d code points (full Unicode) parsed as %s' % (_n, _target), cost=20 * 40 ** _n)
+        _reg(make_whole(_n, _target), {'C01': Q if _n <= 1 else T}, 900 if _n <= 1 else 3300, 'whole', 'every text of %d code points (full Unicode) parsed as %s' % (_n, _target), cost=20 * 40 ** _n)
 _reg(make_whole(3, 'File'), {'C01': T}, 3300, 'whole', 'every text of 3 code points (full Unicode) parsed as File')
 _reg(make_hole('txn', 'File', 13, 1, twin=True), {'C01': Q}, 300, 'hole1', 'vacuity twin', twin=True, cost=5)
 _reg(make_whole(1, 'File', twin=True), {'C01': Q}, 300, 'whole', 'vacuity twin', twin=True, cost=5)
